@@ -48,7 +48,12 @@ out.append("--------------------------------------------------------------------
            "worktree; each change confirmed by `tools/adopt.sh`: demo passes on the clean tree, fails with the change, the 430 tests still pass) and\n"
            "`seeded/rev-Cxx-<commit>/`, the reverts of the genuine-defect repairs. `tools/seeded.py` applies each to /repo, runs the quick check of the\n"
            "property, undoes it. Changes that were first MISSED and the strengthening they caused are described in the notes of the property and in\n"
-           "`AGENT_GUIDE.md` (lessons).\n\n")
+           "`AGENT_GUIDE.md` (lessons).\n\n"
+           "Six blind rounds were run (a-f; three changes per property and round, each agent was told what earlier rounds had tried so that it looked\n"
+           "elsewhere). Every change that the quick check of its property missed at first led to a strengthening round for the whole CLASS of\n"
+           "input the change needs (never the patched lines), after which all kept changes of that property were re-run. Round e: 60 changes, 14 missed\n"
+           "at first (C02, C03, C06, C07x2, C09x2, C10x2, C17, C18x2, C20x2); round f (the 11 properties whose model was extended): 33 changes, 5 missed at\n"
+           "first (C12, C13, C16x2, C19). The table below is the final state, measured against /repo itself.\n\n")
 r = f"{V}/seeded/RESULTS.md"
 out.append(open(r).read() if os.path.exists(r) else "(run tools/seeded.py)\n")
 out.append("\n" + open(f"{V}/design/90-tail.md").read())
